@@ -24,7 +24,10 @@ import (
 // startAccountsRefresher starts a periodic job that refreshes the accounts known by Vouch.
 func (s *Service) startAccountsRefresher(ctx context.Context) error {
 	runtimeFunc := func(_ context.Context) (time.Time, error) {
-		if s.activeValidators == 0 {
+		s.activeValidatorsMutex.RLock()
+		activeValidators := s.activeValidators
+		s.activeValidatorsMutex.RUnlock()
+		if activeValidators == 0 {
 			s.log.Trace().Msg("No active validators; refreshing accounts next slot")
 			return time.Now().Add(s.slotDuration), nil
 		}
@@ -64,8 +67,10 @@ func (s *Service) refreshAccounts(ctx context.Context) {
 		s.log.Error().Err(err).Msg("Failed to obtain active validators on account refresh")
 		return
 	}
+	s.activeValidatorsMutex.Lock()
 	if len(validatorIndices) != s.activeValidators {
 		s.log.Info().Int("old_validators", s.activeValidators).Int("new_validators", len(validatorIndices)).Msg("Change in number of active validators")
 		s.activeValidators = len(validatorIndices)
 	}
+	s.activeValidatorsMutex.Unlock()
 }
